@@ -7,6 +7,7 @@
                              Default / HasValue / Value           → `Attr.isDefault`, `Attr.hasValue`, `Attr.implicit`
     types/annotatedmember.go assertOverride / assertCanBeOverridden → `assertOverride` (+ `asg`: IsAssignable on the alphabet)
     types/objecttype.go      InitFromHash  (attributes loop)      → `defineAttrs`
+                                           (constants loop)       → `constDecl`, `Def.decls`, BOTH_CONSTANT_AND_ATTRIBUTE
                                            (equality loop)        → `checkEquality`
                                            (serialization loop)   → `checkSerialization`
                                            (whole)                → `define`
@@ -31,7 +32,7 @@
                              attributeSlice.Initialize            → `newPos` (values are stored as given: NOT trimmed)
                              attributeSlice.Get (+ constantValue, after the fix "Get of a constant attribute …") → `get`
                              valueAt                              → `valueAt`
-                             Equals                               → `equals`
+                             Equals (+ equalityPositions, equalityIncludesType) → `equals`, `eqPositions`, `includesType`
                              InitHash / makeValueHash             → `initHash`
 
   A resolved type is the list of its levels, the type itself first, then its parent, grand-parent …  (`OType`): the parent
@@ -40,8 +41,8 @@
 
   Go runtime faults / raised issues are explicit: every function that can raise in Go answers `Except Code _`.
   Attribute types are a small alphabet with a decidable instance test (`inst`); nothing in this file depends on which.
-  Not modelled (outside the universe the driver accepts): `final => true`, functions, type parameters, annotations,
-  constants given through `constants => {}`, a `serialization` list or a hash literal with a repeated name.
+  Not modelled (outside the universe the driver accepts): functions, type parameters, annotations, a hash literal with a
+  repeated key, an `undef` given through `constants => {}` (its inferred type `Undef` is not in the alphabet).
   Core-only file (linked into the driver).
 -/
 namespace Pcore.Object
@@ -86,9 +87,10 @@ inductive Kind where
 /-- issue codes (printed without the `PCORE_` prefix) and the Go runtime fault -/
 inductive Code where
   | typeMismatch | constantRequiresValue | illegalKindValueCombination | overrideIsMissing | overrideOfFinal
-  | overriddenNotFound | overrideTypeMismatch
+  | overriddenNotFound | overrideTypeMismatch | constantWithFinal | bothConstantAndAttribute
   | equalityAttributeNotFound | equalityOnConstant | equalityRedefined
   | serializationAttributeNotFound | serializationBadKind | serializationRequiredAfterOptional
+  | serializationDuplicateAttribute
   | illegalArguments | missingRequiredAttribute | attributeHasNoValue
   | fault
   deriving DecidableEq, Repr, Inhabited
@@ -101,12 +103,15 @@ def Code.toString : Code → String
   | .overrideOfFinal => "reported OVERRIDE_OF_FINAL"
   | .overriddenNotFound => "reported OVERRIDDEN_NOT_FOUND"
   | .overrideTypeMismatch => "reported OVERRIDE_TYPE_MISMATCH"
+  | .constantWithFinal => "reported CONSTANT_WITH_FINAL"
+  | .bothConstantAndAttribute => "reported BOTH_CONSTANT_AND_ATTRIBUTE"
   | .equalityAttributeNotFound => "reported EQUALITY_ATTRIBUTE_NOT_FOUND"
   | .equalityOnConstant => "reported EQUALITY_ON_CONSTANT"
   | .equalityRedefined => "reported EQUALITY_REDEFINED"
   | .serializationAttributeNotFound => "reported SERIALIZATION_ATTRIBUTE_NOT_FOUND"
   | .serializationBadKind => "reported SERIALIZATION_BAD_KIND"
   | .serializationRequiredAfterOptional => "reported SERIALIZATION_REQUIRED_AFTER_OPTIONAL"
+  | .serializationDuplicateAttribute => "reported SERIALIZATION_DUPLICATE_ATTRIBUTE"
   | .illegalArguments => "reported ILLEGAL_ARGUMENTS"
   | .missingRequiredAttribute => "reported MISSING_REQUIRED_ATTRIBUTE"
   | .attributeHasNoValue => "reported ATTRIBUTE_HAS_NO_VALUE"
@@ -121,6 +126,7 @@ structure AttrDecl where
   kind : Kind
   dflt : Option Val
   override : Bool := false
+  final : Option Bool := none
   deriving DecidableEq, Repr, Inhabited
 
 /-- an attribute after `attribute.initialize`; `value = none` is Go's `a.value == nil` (not to be confused with undef) -/
@@ -130,6 +136,7 @@ structure Attr where
   kind : Kind
   value : Option Val
   override : Bool := false
+  final : Bool := false
   deriving DecidableEq, Repr, Inhabited
 
 def Attr.hasValue (a : Attr) : Bool := a.value.isSome
@@ -166,6 +173,8 @@ structure Def where
   equality : EqDecl
   includeType : Option Bool
   serialization : Option (List String)
+  /-- `constants => {name => value}`: constants whose type is inferred from the value -/
+  constants : List (String × Val) := []
   deriving Repr, Inhabited
 
 /-- one level of a resolved type -/
@@ -180,12 +189,16 @@ structure Level where
 /-- a resolved type: itself, then its ancestors -/
 abbrev OType := List Level
 
-/-- attribute.go initialize -/
-def mkAttr (d : AttrDecl) : Except Code Attr :=
+/-- `a.final` after initialize: declared, and implied for a constant -/
+def AttrDecl.isFinal (d : AttrDecl) : Bool := d.kind == .constant || d.final == some true
+
+/-- attribute.go initialize, after the constant/final check -/
+def mkAttrCore (d : AttrDecl) : Except Code Attr :=
   match d.dflt with
   | some v =>
     if d.kind == .derived || d.kind == .givenOrDerived then .error .illegalKindValueCombination
-    else if inst d.ty v then .ok { name := d.name, ty := d.ty, kind := d.kind, value := some v, override := d.override }
+    else if inst d.ty v then
+      .ok { name := d.name, ty := d.ty, kind := d.kind, value := some v, override := d.override, final := d.isFinal }
     else .error .typeMismatch
   | none =>
     if d.kind == .constant then .error .constantRequiresValue
@@ -196,7 +209,11 @@ def mkAttr (d : AttrDecl) : Except Code Attr :=
       let value := match ty with
         | .opt _ => some Val.undef
         | _ => none
-      .ok { name := d.name, ty := ty, kind := d.kind, value := value, override := d.override }
+      .ok { name := d.name, ty := ty, kind := d.kind, value := value, override := d.override, final := d.isFinal }
+
+/-- attribute.go initialize: a constant is final — saying `final => false` is an error, raised before the value checks -/
+def mkAttr (d : AttrDecl) : Except Code Attr :=
+  if d.kind == .constant && d.final == some false then .error .constantWithFinal else mkAttrCore d
 
 /-- own attributes first, then the parent's (GetAttribute, Member, members(true).Get) -/
 def findAttr : OType → String → Option Attr
@@ -224,12 +241,12 @@ def equalityDeclared : OType → Bool
   | [] => false
   | l :: p => l.equality.isSome || equalityDeclared p
 
-/-- annotatedmember.go assertOverride / assertCanBeOverridden (a constant is final) -/
+/-- annotatedmember.go assertOverride / assertCanBeOverridden: a final member is overridden only constant by constant -/
 def assertOverride (parent : OType) (a : Attr) : Except Code Unit :=
   match findAttr parent a.name with
   | none => if a.override then .error .overriddenNotFound else .ok ()
   | some pa =>
-    if pa.kind == .constant && a.kind != .constant then .error .overrideOfFinal
+    if pa.final && !(pa.kind == .constant && a.kind == .constant) then .error .overrideOfFinal
     else if !a.override then .error .overrideIsMissing
     else if !asg pa.ty a.ty then .error .overrideTypeMismatch
     else .ok ()
@@ -262,16 +279,18 @@ def checkEquality (own : List Attr) (parent : OType) : List String → Except Co
       else if !parent.isEmpty && (equalityAttributes parent).contains n then .error .equalityRedefined
       else checkEquality own parent ns
 
-def checkSerialization (own : List Attr) (parent : OType) : Bool → List String → Except Code Unit
-  | _, [] => .ok ()
-  | optFound, n :: ns =>
+/-- the serialization loop of InitFromHash: `optFound` = an optional attribute was seen, `seen` = the names stored so far
+    (after the fix "a serialization list naming an attribute twice was accepted …") -/
+def checkSerialization (own : List Attr) (parent : OType) : Bool → List String → List String → Except Code Unit
+  | _, _, [] => .ok ()
+  | optFound, seen, n :: ns =>
     match lookupMember own parent n with
     | none => .error .serializationAttributeNotFound
     | some a =>
       if a.kind == .constant || a.kind == .derived then .error .serializationBadKind
-      else if a.optional then checkSerialization own parent true ns
-      else if optFound then .error .serializationRequiredAfterOptional
-      else checkSerialization own parent optFound ns
+      else if !a.optional && optFound then .error .serializationRequiredAfterOptional
+      else if seen.contains n then .error .serializationDuplicateAttribute
+      else checkSerialization own parent (optFound || a.optional) (n :: seen) ns
 
 def EqDecl.toList? : EqDecl → Option (List String)
   | .absent => none
@@ -284,16 +303,32 @@ def parentOf (env : List OType) (d : Def) : OType :=
   | none => []
   | some j => (env[j]?).getD []
 
+/-- `px.Generalize(value.PType())` on the value alphabet -/
+def tyOfVal : Val → Ty
+  | .int _ => .int
+  | .str _ => .str
+  | .bool _ => .bool
+  | _ => .any      -- undef / a hash: not accepted by the driver as a constant
+
+/-- InitFromHash, constants loop: the attribute specification a `constants` entry stands for — the type inferred from the
+    value, kind constant, and `override` set exactly when the parent has a member of that name -/
+def constDecl (parent : OType) (c : String × Val) : AttrDecl :=
+  { name := c.1, ty := tyOfVal c.2, kind := .constant, dflt := some c.2, override := (findAttr parent c.1).isSome }
+
+/-- the attribute specifications in the order InitFromHash processes them: `attributes`, then `constants` -/
+def Def.decls (d : Def) (parent : OType) : List AttrDecl := d.attrs ++ d.constants.map (constDecl parent)
+
 /-- objectType.InitFromHash: the definition numbered `env.length` against the earlier definitions `env` -/
 def define (env : List OType) (d : Def) : Except Code OType :=
   let parent : OType := parentOf env d
-  match defineAttrs parent d.attrs with
+  if d.constants.any (fun c => d.attrs.any (fun a => a.name == c.1)) then .error .bothConstantAndAttribute else
+  match defineAttrs parent (d.decls parent) with
   | .error c => .error c
   | .ok attrs =>
     match checkEquality attrs parent (d.equality.toList?.getD []) with
     | .error c => .error c
     | .ok () =>
-      match checkSerialization attrs parent false (d.serialization.getD []) with
+      match checkSerialization attrs parent false [] (d.serialization.getD []) with
       | .error c => .error c
       | .ok () =>
         .ok ({ id := env.length, attrs := attrs, equality := d.equality.toList?,
@@ -337,10 +372,15 @@ def posAttrs (t : OType) : List Attr :=
 
 def requiredCount (t : OType) : Nat := ((posAttrs t).filter (fun a => !a.optional)).length
 
+/-- the keys of a StringHash filled in list order: every name once, at its first occurrence (EqualityAttributes) -/
+def dedup : List String → List String
+  | [] => []
+  | x :: xs => x :: (dedup xs).filter (fun y => y != x)
+
 def attrInfo (t : OType) : AttrInfo :=
   let attrs := posAttrs t
   { attrs := attrs, required := requiredCount t,
-    eqIdx := if equalityDeclared t then some ((equalityAttributes t).filterMap (nameToPos attrs)) else none }
+    eqIdx := if equalityDeclared t then some ((dedup (equalityAttributes t)).filterMap (nameToPos attrs)) else none }
 
 /-! ### instances -/
 
@@ -439,8 +479,9 @@ def makeValueHash : List Attr → List Val → List (String × Val)
 
 def initHash (o : Obj) : List (String × Val) := makeValueHash (attrInfo o.typ).attrs o.values
 
-/-- attribute.Equals: kind, override, name, type (final is determined by the kind here); never the value -/
-def attrEq (a b : Attr) : Bool := a.kind == b.kind && a.override == b.override && a.name == b.name && a.ty == b.ty
+/-- attribute.Equals: kind, override, name, final, type; never the value -/
+def attrEq (a b : Attr) : Bool :=
+  a.kind == b.kind && a.override == b.override && a.name == b.name && a.final == b.final && a.ty == b.ty
 
 /-- objectType.Equals.  `t == o`: the pointer test; names (`id`) first. -/
 def tyEqDeep : OType → OType → Bool
@@ -471,18 +512,44 @@ def allOk (f : Nat → Except Code Bool) : List Nat → Except Code Bool
     | .ok false => .ok false
     | .ok true => allOk f is
 
-/-- attributeSlice.Equals: the receiver's layout is used for both operands -/
+/-- objectvalue.go equalityPositions: the positions `Equals` compares -/
+def eqPositions (t : OType) : List Nat :=
+  match (attrInfo t).eqIdx with
+  | some l => l
+  | none => List.range (posAttrs t).length
+
+/-- `equality_include_type` of the type itself (absent = true) -/
+def includesType : OType → Bool
+  | [] => true
+  | l :: _ => l.includeType
+
+def cmpValues (a b : Except Code Val) : Except Code Bool :=
+  match a, b with
+  | .ok v, .ok v' => .ok (v == v')
+  | .error c, _ => .error c
+  | _, .error c => .error c
+
+/-- one compared position `i` of the receiver against an operand of a different type: the attribute is looked up by NAME
+    in the other layout and must be compared by the other type too -/
+def crossCmp (attrs attrs' : List Attr) (pos' : List Nat) (vs vs' : List Val) (i : Nat) : Except Code Bool :=
+  match attrs[i]? with
+  | none => .error .fault                      -- ai.Attributes()[i]: index out of range
+  | some a =>
+    match nameToPos attrs' a.name with
+    | none => .ok false
+    | some j =>
+      if pos'.contains j then cmpValues (valueAt attrs vs i) (valueAt attrs' vs' j) else .ok false
+
+/-- attributeSlice.Equals (after the fix "equality_include_type => false was ignored").  Equal types: the receiver's layout
+    is used for both operands.  Different types: equal only when both say `equality_include_type => false`, both compare
+    the same number of attributes, and every attribute the receiver compares is compared by the other type too and has an
+    equal value there. -/
 def equals (o o' : Obj) : Except Code Bool :=
+  let attrs := posAttrs o.typ
   if tyEq o.typ o'.typ then
-    let ai := attrInfo o.typ
-    let positions := match ai.eqIdx with
-      | some l => l
-      | none => List.range ai.attrs.length
-    allOk (fun i =>
-      match valueAt ai.attrs o.values i, valueAt ai.attrs o'.values i with
-      | .ok v, .ok v' => .ok (v == v')
-      | .error c, _ => .error c
-      | _, .error c => .error c) positions
-  else .ok false
+    allOk (fun i => cmpValues (valueAt attrs o.values i) (valueAt attrs o'.values i)) (eqPositions o.typ)
+  else if includesType o.typ || includesType o'.typ then .ok false
+  else if (eqPositions o.typ).length != (eqPositions o'.typ).length then .ok false
+  else allOk (crossCmp attrs (posAttrs o'.typ) (eqPositions o'.typ) o.values o'.values) (eqPositions o.typ)
 
 end Pcore.Object
